@@ -228,6 +228,8 @@ def do_replay(mod, pid, path):
     from .harness import replay as _replay
     with open(path) as fh:
         rp = json.load(fh)
+    if not hasattr(mod, "custom_replay") and isinstance(rp.get("replay"), dict) and rp["replay"].get("call"):
+        from .props import C20 as mod  # a CrossHair counterexample recorded by another property's check (C12:estimator_due)
     if hasattr(mod, "custom_replay"):
         bad, info = mod.custom_replay(rp)
         print(json.dumps(info, default=str)[:2000])
